@@ -25,4 +25,123 @@ package cli
 //@ func (pathmap).add
 //@   props C12
 //@   requires m != nil
+//@   modifies mapheap(m)
+
+// ---- display side (C01: what the CLI shows is what the client library holds; C12: no display path panics) -------
+// cliDisplays: calls of the configured Display function; cliShown: values handed to the single-line display.
+//@ ghost cliDisplays int
+//@ ghost cliShown int
+//@ func field Config.Display (b)
+//@   effect cliDisplays := cliDisplays + 1
+//@   note the output function is assumed not to touch the display state
+//@ func global since (t)
+// The event budget: 0 means unlimited; otherwise every call uses one event and the budget stays exhausted once used up.
+//@ func countComplete
+//@   props C01 C12
+//@   arith wrap
+//@   requires cfg != nil
+//@   modifies cfg.Count, cfg.countExhausted
+//@   ensures [exhausted-stays-exhausted C01] old(cfg.countExhausted) ==> res0 && cfg.Count == old(cfg.Count) && cfg.countExhausted
+//@   ensures [unlimited-never-completes C01] !old(cfg.countExhausted) && old(cfg.Count) == 0 ==> !res0 && cfg.Count == 0 && !cfg.countExhausted
+//@   ensures [counts-down-by-one C01] !old(cfg.countExhausted) && old(cfg.Count) != 0 ==> !res0 && cfg.Count == old(cfg.Count) - 1 && (cfg.countExhausted <==> cfg.Count == 0)
+// Timestamps: nothing when disabled, the nanosecond count when raw, otherwise a formatted text.
+//@ func formatTime
+//@   props C01 C12
+//@   requires cfg != nil
+//@   ensures [disabled-shows-no-timestamp C01] cfg.Timestamp == "" ==> res0 == nil
+//@   ensures [raw-is-the-nanosecond-count C01] cfg.Timestamp == "raw" ==> isa(res0.(int64)) && res0.(int64) == wrap64s(tinst(ts))
+//@   ensures [otherwise-a-text C01] cfg.Timestamp != "" && cfg.Timestamp != "raw" ==> isa(res0.(string))
+// The single-line handler: updates and deletes are shown unless filtered, markers are not shown, an error ends the display.
+//@ func captured iDisplay in genHandler$2 (p, v, ts)
+//@   effect cliShown := cliShown + 1
+//@ func genHandler$2
+//@   props C01 C12
+//@   requires cfg != nil && iDisplay != nil
+//@   modifies ghost cliShown
+//@   ensures [updates-shown-unless-filtered C01] isa(n.(client.Update)) ==> res0 == nil && cliShown == old(cliShown) + ite(cfg.FilterUpdates, 0, 1)
+//@   ensures [deletes-shown-unless-filtered C01] isa(n.(client.Delete)) ==> res0 == nil && cliShown == old(cliShown) + ite(cfg.FilterDeletes, 0, 1)
+//@   ensures [an-error-ends-the-display C01] isa(n.(client.Error)) ==> res0 != nil && cliShown == old(cliShown)
+//@   ensures [markers-are-not-shown C01] isa(n.(client.Sync)) || isa(n.(client.Connected)) ==> res0 == nil && cliShown == old(cliShown)
+//@ func genHandler$1
+//@   props C01 C12
+//@   requires cfg != nil && cfg.Display != nil && since != nil
+//@   modifies ghost cliDisplays
+//@   ensures [shown-once-when-no-latency-filter C01] cfg.FilterMinLatency <= 0 ==> cliDisplays == old(cliDisplays) + 1
+//@   ensures [at-most-once C01] cliDisplays <= old(cliDisplays) + 1
+//@ func genHandler
+//@   props C01 C12
+//@   requires cfg != nil
+//@   ensures res0 != nil
+
+// The grouped display: every stored value of the client library's tree is filed in the display map under its own path
+// (with its timestamp when timestamps are on), sub-trees are skipped, the result is displayed once (plus the size line).
+// cliFiled: values filed in a display map by the walk.
+//@ ghost cliFiled int
+//@ func (pathmap).display
+//@   props C01 C12
+//@   trusted
+//@   note body not verified: recursive text formatting of the display map (fmt, sort, strings)
+//@ func displayWalk$1
+//@   props C01 C12
+//@   requires cfg != nil && b != nil
+//@   modifies mapheap(b)
+//@   assert at call (pathmap).add#1: [stored-value-filed-under-its-own-path C01] isa(value.(client.TreeVal)) && arg0 == b && view(arg1) == view(path)
+//@   ensures [the-walk-goes-on C01] res0 == nil
+//@   ensures [sub-trees-are-not-values C01] isa(value.(*ctree.Tree)) ==> hits("call (pathmap).add#0") == old(hits("call (pathmap).add#0")) && hits("call (pathmap).add#1") == old(hits("call (pathmap).add#1"))
+//@   ensures [every-stored-value-is-filed-once C01] isa(value.(client.TreeVal)) ==> hits("call (pathmap).add#1") == old(hits("call (pathmap).add#1")) + 1
+//@ func displayWalk
+//@   props C01 C12
+//@   requires c != nil && c.Tree != nil && cfg != nil && cfg.Display != nil
+//@   modifies ghost cliDisplays, heap(map pathmap)
+//@   assert at call (*Tree).WalkSorted#0: [walks-the-client-librarys-tree C01] arg0 == c.Tree
+//@   ensures [displayed-once-plus-size-line C01] hits("call field Config.Display#0") == old(hits("call field Config.Display#0")) + 1
+//@     && hits("call field Config.Display#1") == old(hits("call field Config.Display#1")) + ite(cfg.DisplaySize, 1, 0)
+// Streaming: nothing is shown before the sync marker; the marker shows the whole tree once; afterwards every update and
+// delete is shown as it arrives; the event budget ends the stream.
+//@ func captured display in displayStreamingResults$2 (path, ts, val)
+//@   effect cliShown := cliShown + 1
+//@   modifies ghost cliDisplays, ghost cliShown, heap(map pathmap), heap([]string)
+//@ func displayStreamingResults$2
+//@   props C01 C12
+//@   arith wrap
+//@   requires cfg != nil && cfg.Display != nil && c != nil && c.Tree != nil && display != nil
+//@   modifies ghost cliDisplays, ghost cliShown, captured complete, cfg.Count, cfg.countExhausted, heap(map pathmap), heap([]string)
+//@   ensures [updates-and-deletes-are-offered-to-the-display C01] isa(n.(client.Update)) || isa(n.(client.Delete)) ==> hits("call captured display#0") + hits("call captured display#1") == old(hits("call captured display#0") + hits("call captured display#1")) + 1
+//@   ensures [sync-shows-the-tree-and-opens-the-stream C01] isa(n.(client.Sync)) ==> complete && hits("call displayWalk#0") == old(hits("call displayWalk#0")) + 1
+//@   ensures [budget-ends-the-stream C01] old(cfg.countExhausted) ==> res0 != nil
+//@ func displayStreamingResults$1
+//@   props C01 C12
+//@   requires cfg != nil && cfg.Display != nil
+//@   modifies ghost cliDisplays, heap(map pathmap), elems(path)
+//@   note with timestamps on, append(path, "timestamp") may write into the spare capacity of the notification's path array (the display map copies the elements at once)
+//@   ensures [nothing-before-the-sync-marker C01] !complete ==> hits("call field Config.Display#0") == old(hits("call field Config.Display#0"))
+//@   ensures [shown-once-after-it C01] complete ==> hits("call field Config.Display#0") == old(hits("call field Config.Display#0")) + 1
+// Dispatch: the display type decides first (single, proto), otherwise the query type picks once / polling / streaming.
+//@ func displayOnceResults
+//@   props C01 C12
+//@   trusted
+//@   note body not verified here (client construction and Subscribe are verified in package client; the walk is displayWalk)
+//@ func displayPollingResults
+//@   props C01 C12
+//@   trusted
+//@   note body not verified (defer and loop over client.Poll; the walk is displayWalk, the budget countComplete)
+//@ func displayStreamingResults
+//@   props C01 C12
+//@   trusted
+//@   note body not verified (its two closures, the handler and the display step, are)
+//@ func displaySingleResults
+//@   props C01 C12
+//@   trusted
+//@   note body not verified (the handler is genHandler's)
+//@ func displayProtoResults
+//@   props C01 C12
+//@   trusted
+//@   note body not verified
+//@ func sendQueryAndDisplay
+//@   props C01 C12
+//@   requires cfg != nil && ctx != nil
 //@   modifies *
+//@   assert at call displayOnceResults#0: [once-queries-are-displayed-once C01] query.Type == client.Once && arg1 == query && arg2 == cfg
+//@   assert at call displayPollingResults#0: [poll-queries-are-polled C01] query.Type == client.Poll && arg1 == query && arg2 == cfg
+//@   assert at call displayStreamingResults#0: [stream-queries-are-streamed C01] query.Type == client.Stream && arg1 == query && arg2 == cfg
+//@   assert at call displaySingleResults#0: [single-line-display-gets-the-query C01] arg1 == query && arg2 == cfg
